@@ -409,3 +409,40 @@ Proof.
     rewrite E1. f_equal. f_equal. unfold znth. destruct (Z.ltb_spec (Z.of_nat p) 0); [lia|].
     rewrite Nat2Z.id. reflexivity.
 Qed.
+
+(* ---------- HuffmanTable.Build does not panic on a valid table ---------- *)
+(* number of codes before a level <= index of the first code of the level *)
+Lemma lookup_ok_len_true : forall cnt l p nvals, 0 <= p -> 0 <= l < 8 ->
+  p + Z.of_nat cnt <= nvals -> p + Z.of_nat cnt <= 2 ^ (l + 1) ->
+  lookup_ok_len cnt l p nvals = true.
+Proof.
+  induction cnt; intros l p nvals Hp Hl Hn Hk; [reflexivity|].
+  cbn [lookup_ok_len]. rewrite Nat2Z.inj_succ in *.
+  destruct (Z.ltb_spec p nvals); [|lia]. cbn [andb].
+  assert (E : 256 = 2 ^ (l + 1) * 2 ^ (7 - l)) by (rewrite <- Z.pow_add_r by lia; replace (l + 1 + (7 - l)) with 8 by lia; reflexivity).
+  assert (Hpos : 0 < 2 ^ (7 - l)) by (apply Z.pow_pos_nonneg; lia).
+  destruct (Z.leb_spec ((p + 1) * 2 ^ (7 - l)) 256) as [_|Hbad].
+  - cbn [andb]. apply IHcnt; lia.
+  - exfalso. rewrite E in Hbad. assert (p + 1 <= 2 ^ (l + 1)) by lia. nia.
+Qed.
+
+Lemma lookup_ok_fits : forall bits l p first nvals, fits bits (l + 1) first -> 0 <= p <= first -> 0 <= l ->
+  p + zsum bits <= nvals -> lookup_ok bits l p nvals = true.
+Proof.
+  induction bits as [|b bs IH]; intros l p first nvals Hf Hp Hl Hn; [reflexivity|].
+  cbn [lookup_ok fits zsum fold_right] in *. destruct Hf as (Hb & Hfit & Hf').
+  destruct (Z.leb_spec 8 l); [reflexivity|].
+  assert (Hs : 0 <= zsum bs).
+  { pose proof (fits_nonneg _ _ _ Hf') as Hnn. clear -Hnn. induction Hnn; cbn [zsum fold_right]; [lia|].
+    unfold zsum in *. lia. }
+  unfold zsum in *.
+  rewrite lookup_ok_len_true; try lia. cbn [andb].
+  rewrite Z.max_r by lia.
+  apply (IH (l + 1) (p + b) (2 * (first + b))); try lia.
+  replace (l + 1 + 1) with (l + 1 + 1) by lia. exact Hf'.
+Qed.
+
+Lemma lookup_ok_facts : forall bits vals, table_facts bits vals -> lookup_ok bits 0 0 (zlen vals) = true.
+Proof.
+  intros bits vals [Fl Fb Fs Fv Fn Ff]. apply (lookup_ok_fits bits 0 0 0); try lia. exact Ff.
+Qed.
